@@ -17,8 +17,8 @@ def find(dump, kind, ns, name):
 
 def g_faults(f):
     f = f or {}
-    if f.get("lost"):
-        raise ValueError("lost-answer faults are encoded by the caller")
+    # a lost answer (call applied, error returned) looks to the reconcile exactly like a rejection: the
+    # model predicts the calls attempted and the error flags; the store after the step is re-read anyway
     return gC("MkFaults", gL([P.nm(n) for n in f.get("create_nodes") or []]), gL([P.nm(n) for n in f.get("delete_pods") or []]),
               gL([P.nm(n) for n in f.get("patch_pods") or []]), gB(bool(f.get("status"))))
 
